@@ -645,6 +645,36 @@ def check_c17(prop, tier, seed):
     runs += 1
     if len(tm.LIB_ASYNCIO_CALLS) != before or r != ("done", "suppressed"):
         v.violation("C17/ExitStack/library-uses-asyncio", {"engine": "scenario", "observed": {"calls": tm.LIB_ASYNCIO_CALLS[before:][:3], "result": repr(r)[:100]}})
+    # two parties closing one ExitStack, the first suspended inside an exit callback: whatever the second one gets to do,
+    # it suspends only where a user's awaitable suspends (it has nothing of the library's own to wait for)
+    acct2 = Accounting()
+    ran = []
+
+    async def slow_exit(*_a):
+        ran.append("slow:start")
+        await Suspend(acct2, ("exit", 1))
+        ran.append("slow:end")
+
+    def quick_exit(*_a):
+        ran.append("quick")
+
+    stack2 = L_.ExitStack()
+    stack2.callback(quick_exit)
+    stack2.push(slow_exit)
+    first, second = Task(stack2.aclose(), acct2), Task(stack2.aclose(), acct2)
+    r1 = first.step()
+    steps = 0
+    r2 = second.step()
+    while r2[0] == "token" and steps < 10:
+        steps += 1
+        r2 = second.step()
+    while r1[0] == "token" and steps < 30:
+        steps += 1
+        r1 = first.step()
+    runs += 1
+    if not acct2.ok() or r2[0] == "token" or r1[0] == "token":
+        v.violation("C17/ExitStack/second-closer-waits-without-user-awaitable",
+                    {"engine": "scenario", "observed": {"accounting": acct2.describe(), "first": repr(r1)[:80], "second": repr(r2)[:80], "ran": ran}})
     # importing and using the library needs no running loop and creates none
     code = ("import asyncio, asyncio.events as ev, sys; sys.path.insert(0, %r); import asyncstdlib as a\n"
             "assert ev._get_running_loop() is None\n"
